@@ -106,6 +106,10 @@ pub struct C15Case {
     /// which built-in failure: 0 = `.cat --last-id "not-an-id"`, 1 = a list stream piped into `.append`
     #[serde(default)]
     pub builtin_kind: u8,
+    /// the closure returns the frame it was given (`$frame`) instead of `ret`; triggers with meta
+    /// then also carry a `handler_id` of somebody else, as frames emitted by another handler do
+    #[serde(default)]
+    pub ret_frame: bool,
     pub ret: Val,
     pub suffix: Option<String>,
     pub ret_ttl: Option<WTtl>,
@@ -201,13 +205,15 @@ pub fn strategy() -> BoxedStrategy<C15Case> {
             1 => Just(Some(WTtl::Forever)),
         ],
         proptest::collection::vec((0u8..5, any::<bool>()), 1..=3),
+        proptest::bool::weighted(0.12),
     )
-        .prop_map(|(handler_ctx, appends, (fail, fail_in_builtin, builtin_kind), ret, suffix, ret_ttl, triggers)| C15Case {
+        .prop_map(|(handler_ctx, appends, (fail, fail_in_builtin, builtin_kind), ret, suffix, ret_ttl, triggers, ret_frame)| C15Case {
             handler_ctx,
             appends,
             fail,
             fail_in_builtin,
             builtin_kind,
+            ret_frame,
             ret,
             suffix,
             ret_ttl,
@@ -270,7 +276,11 @@ pub fn render(case: &C15Case, ctxs: &[u128]) -> String {
     if fail_pos == Some(case.appends.len()) {
         s.push_str(fail_stmt);
     }
-    s.push_str(&format!("    {}\n", case.ret.nu()));
+    if case.ret_frame {
+        s.push_str("    $frame\n");
+    } else {
+        s.push_str(&format!("    {}\n", case.ret.nu()));
+    }
     s.push_str("  }\n}\n");
     s
 }
@@ -318,7 +328,13 @@ fn run_in(case: &C15Case, nu: &mut Nu) -> Result<CaseInfo, Fail> {
             "trig",
             hctx,
             c.as_deref(),
-            if *meta { Some(MetaVal::O(vec![("n".into(), MetaVal::I(i as i64))])) } else { None },
+            if *meta && case.ret_frame {
+                Some(MetaVal::O(vec![("n".into(), MetaVal::I(i as i64)), ("handler_id".into(), MetaVal::S("03gy0000000000000000other".into()))]))
+            } else if *meta {
+                Some(MetaVal::O(vec![("n".into(), MetaVal::I(i as i64))]))
+            } else {
+                None
+            },
         )?);
     }
     let fin = nu.append("fin", hctx, None, None)?;
@@ -385,7 +401,20 @@ fn run_in(case: &C15Case, nu: &mut Nu) -> Result<CaseInfo, Fail> {
             let bytes = if a.echo { trigger_bytes[ti].clone() } else { a.input.piped_bytes() };
             want.push((a.topic.clone(), bytes, None, a.ttl.clone(), meta));
         }
-        if case.ret != Val::Nothing {
+        if case.ret_frame {
+            // the frame as the closure was handed it, rendered as a record
+            let mut rec = serde_json::Map::new();
+            rec.insert("id".into(), json!(t.id));
+            rec.insert("topic".into(), json!(t.topic));
+            rec.insert("context_id".into(), json!(t.ctx));
+            if let Some(h) = &t.hash {
+                rec.insert("hash".into(), json!(h));
+            }
+            if let Some(m) = t.meta_json() {
+                rec.insert("meta".into(), m);
+            }
+            want.push((format!("h{suffix}"), None, Some(serde_json::Value::Object(rec)), case.ret_ttl.clone(), serde_json::Map::new()));
+        } else if case.ret != Val::Nothing {
             want.push((format!("h{suffix}"), None, Some(case.ret.json()), case.ret_ttl.clone(), serde_json::Map::new()));
         }
         if got.len() != want.len() {
@@ -468,6 +497,7 @@ fn run_in(case: &C15Case, nu: &mut Nu) -> Result<CaseInfo, Fail> {
     let mut labels = vec![];
     for (on, name) in [
         (will_fail, "closure-fails"),
+        (case.ret_frame && !will_fail, "returns-the-frame-it-was-given"),
         (will_fail && case.fail_in_builtin, "closure-fails-inside-builtin-command"),
         (fail_after_buffered, "failure-after-buffered-append"),
         (colliding, "user-meta-collides-with-stamps"),
